@@ -110,6 +110,8 @@ Inductive ev :=
 | EvAuthReplyFailed           (* PreSend failed (peer gone) *)
 | EvPlugin (after : bool)     (* PostAccept of another plugin placed before / after the checker was called *)
 | EvNextAccept                (* PostAccept of the last plugin of the chain (the harness' recorder) *)
+| EvSetID                     (* the checker called sess.SetID on the still unindexed session: the hub is not touched *)
+| EvDisplace                  (* sessHub.set at accept found another session under this id and closed it *)
 | EvAccept                    (* status -> ok, read loop started, session indexed *)
 | EvReject                    (* sess.Close(): socket closed; never indexed *)
 | EvHook (stage : N)          (* a per-message plugin stage *)
@@ -135,13 +137,13 @@ Definition h_post_write_reply := 11.
    session is still preparing and only when the checker returned OK. *)
 Definition is_app (e : ev) : bool :=
   match e with
-  | EvHook _ | EvHandler _ _ | EvReply _ _ | EvReplyFailed _ | EvBadType => true
+  | EvHook _ | EvHandler _ _ | EvReply _ _ | EvReplyFailed _ | EvBadType | EvDisplace => true
   | _ => false
   end.
 
 Definition is_exchange (e : ev) : bool :=
   match e with
-  | EvRecv | EvMultiRecv | EvAuthReply _ | EvAuthReplyFailed | EvPlugin _ | EvNextAccept
+  | EvRecv | EvMultiRecv | EvAuthReply _ | EvAuthReplyFailed | EvPlugin _ | EvNextAccept | EvSetID
   | EvAccept | EvReject => true
   | _ => false
   end.
@@ -160,7 +162,10 @@ Record checker := mkChecker {
   ck_panic : nat;                 (* 0: never; 1: the checker function panics before any RecvOnce;
                                      2: it panics after its RecvOnce calls (in its verify code) *)
   ck_before : option hookb;       (* a PostAccept plugin registered before the checker *)
-  ck_after : option hookb }.      (* ... and one registered behind it *)
+  ck_after : option hookb;        (* ... and one registered behind it *)
+  ck_setid : nat }.               (* 0: never; 1: the checker names the session (SetID) before it verifies
+                                     anything, with an id another, authenticated session holds;
+                                     2: it does so only once its verdict is OK *)
 
 Inductive recv_res := RInfo (info : bytes) | RStat (code : Z).
 
@@ -229,9 +234,12 @@ Section Server.
     else if gone s then reject_with s rest (pre ++ [EvAuthReplyFailed])
     else if Z.eqb c 0 then
       let aft := match ck_after ck with Some _ => [EvPlugin true] | None => [] end in
-      if hook_fails (ck_after ck) then reject_with s rest (pre ++ [EvAuthReply 0] ++ aft)
+      let sid := if Nat.eqb (ck_setid ck) 2 then [EvSetID] else [] in
+      if hook_fails (ck_after ck) then reject_with s rest ((pre ++ sid) ++ [EvAuthReply 0] ++ aft)
       else mkSt (Running false) rest (eof s) false true true
-                (trace s ++ pre ++ [EvAuthReply 0] ++ aft ++ [EvNextAccept; EvAccept])
+                (trace s ++ (pre ++ sid) ++ [EvAuthReply 0] ++ aft ++ [EvNextAccept; EvAccept] ++
+                 (* session.go SessionHub.set: the previous holder of the id is closed *)
+                 (if Nat.eqb (ck_setid ck) 0 then [] else [EvDisplace]))
     else reject_with s rest (pre ++ [EvAuthReply c]).
 
   (* context.go: what one frame read by the loop causes *)
@@ -276,7 +284,9 @@ Section Server.
         | Closed => s
         | Fresh =>
             let s1 := mkSt Preparing (buf s) (eof s) (gone s) (accepted s) (indexed s)
-                           (trace s ++ match ck_before ck with Some _ => [EvPlugin false] | None => [] end) in
+                           (trace s ++ match ck_before ck with Some _ => [EvPlugin false] | None => [] end
+                                    ++ (if negb (Nat.eqb (ck_panic ck) 1) && Nat.eqb (ck_setid ck) 1
+                                        then [EvSetID] else [])) in
             if hook_fails (ck_before ck) then reject_with s (buf s) [EvPlugin false]
             else pump_fuel ck n' s1
         | Preparing =>
